@@ -1,0 +1,82 @@
+//go:build verif
+
+package tracer
+
+// Contracts for the deductive verifier in /verif (comment-only file; no code).
+//
+// Ghost event log of a builder, as seen by the code that feeds it: evN[b] events so far;
+// for event i: evKind (1 request data, 2 response data, 3 response end-stream content,
+// 4 request body end, 5 response body end, 0 other), evLen (its Len field), evEnv (its
+// envelope, nil if none).
+//@ ghost evN: *builder -> int
+//@ ghost evKind: *builder -> [0]int
+//@ ghost evLen: *builder -> [0]int
+//@ ghost evEnv: *builder -> [0]*Envelope
+
+//@ spec evKindOf(e Event) int =
+//@    typeis(e, *RequestBodyData) ? 1 : (typeis(e, *ResponseBodyData) ? 2 : (typeis(e, *ResponseBodyEndStream) ? 3 :
+//@    (typeis(e, *RequestBodyEnd) ? 4 : (typeis(e, *ResponseBodyEnd) ? 5 : 0))))
+//@ spec evLenOf(e Event) int =
+//@    typeis(e, *RequestBodyData) ? unbox(e, *RequestBodyData).Len : (typeis(e, *ResponseBodyData) ? unbox(e, *ResponseBodyData).Len : 0)
+//@ spec evEnvOf(e Event) *Envelope =
+//@    typeis(e, *RequestBodyData) ? unbox(e, *RequestBodyData).Envelope : (typeis(e, *ResponseBodyData) ? unbox(e, *ResponseBodyData).Envelope : nil)
+
+// add: appends exactly one entry to the log; touches only builder / trace state and the
+// event's own index and offset fields.
+//@ func (*builder).add
+//@   trusted
+//@   //# (verified against its own code under C16; here its effect on the ghost log is what matters)
+//@   requires b != nil && event != nil
+//@   modifies evN, evKind, evLen, evEnv, builder.*, RequestBodyData.MessageIndex, ResponseBodyData.MessageIndex, eventOffset.*, []Event, http.Request.*
+//@   ensures evN[b] == old(evN[b]) + 1
+//@   ensures evKind[b] == old(evKind[b])[old(evN[b]) := evKindOf(event)]
+//@   ensures evLen[b] == old(evLen[b])[old(evN[b]) := evLenOf(event)]
+//@   ensures evEnv[b] == old(evEnv[b])[old(evN[b]) := evEnvOf(event)]
+//@   ensures forall o *builder :: o != b ==> evN[o] == old(evN[o]) && evKind[o] == old(evKind[o]) && evLen[o] == old(evLen[o]) && evEnv[o] == old(evEnv[o])
+
+// Representation invariant of the envelope state machine (stream protocols): either between
+// envelopes / inside a prefix (fewer than 5 prefix bytes buffered, nothing else pending) or inside
+// a payload (envelope known, fewer payload bytes seen than declared).
+//@ spec wfTracer(d *dataTracer) bool = d != nil && d.builder != nil &&
+//@    (d.isStreamProtocol ==>
+//@      (d.expecting == 0 ==> len(d.prefix) < 5 && d.actual == 0 && d.env == nil && d.endStream == nil) &&
+//@      (d.expecting > 0 ==> len(d.prefix) == 0 && d.actual < d.expecting && d.env != nil && d.env.Len == d.expecting))
+
+// byte i of the 5-byte prefix being assembled from the buffered bytes followed by data
+//@ spec prefixByte(pre []byte, data []byte, i int) int = i < len(pre) ? pre[i] : data[i - len(pre)]
+
+//@ func (*dataTracer).tracePrefixLocked
+//@   requires wfTracer(d) && d.isStreamProtocol && held[d.mu] && d.expecting == 0 && len(data) > 0
+//@   modifies dataTracer.prefix, dataTracer.env, dataTracer.expecting, dataTracer.endStream, []byte, Envelope.*, bufContent,
+//@            evN, evKind, evLen, evEnv, builder.*, RequestBodyData.*, ResponseBodyData.*, eventOffset.*, []Event, http.Request.*
+//@   ensures wfTracer(d) && held[d.mu]
+//@   ensures @partial !result_1 ==> len(data) < 5 - old(len(d.prefix)) && len(d.prefix) == old(len(d.prefix)) + len(data) && d.expecting == 0 && evN[d.builder] == old(evN[d.builder])
+//@   ensures @consumed result_1 ==> result_0 == 5 - old(len(d.prefix)) && result_0 <= len(data) && len(d.prefix) == 0
+//@   ensures @decoded result_1 ==> d.expecting == old(prefixByte(d.prefix, data, 1)) * 16777216 + old(prefixByte(d.prefix, data, 2)) * 65536 +
+//@                                               old(prefixByte(d.prefix, data, 3)) * 256 + old(prefixByte(d.prefix, data, 4))
+//@   ensures @flags result_1 && d.expecting > 0 ==> d.env.Flags == old(prefixByte(d.prefix, data, 0)) && d.actual == 0 && evN[d.builder] == old(evN[d.builder])
+//@   ensures @capture result_1 && d.expecting > 0 ==> (d.endStream != nil) == (!d.isRequest && (old(prefixByte(d.prefix, data, 0)) & 130) != 0)
+//@   ensures @capture-empty result_1 && d.expecting > 0 && d.endStream != nil ==> bufContent[d.endStream] == ""
+//@   ensures @empty-message result_1 && d.expecting == 0 ==> evN[d.builder] == old(evN[d.builder]) + 1 &&
+//@        evKind[d.builder][old(evN[d.builder])] == (d.isRequest ? 1 : 2) && evLen[d.builder][old(evN[d.builder])] == 0 &&
+//@        evEnv[d.builder][old(evN[d.builder])] != nil && evEnv[d.builder][old(evN[d.builder])].Len == 0 &&
+//@        evEnv[d.builder][old(evN[d.builder])].Flags == old(prefixByte(d.prefix, data, 0))
+
+// payload bytes complete an envelope: exactly one data event with the envelope and its
+// declared length; the end-stream content (responses only) is the buffered payload, raw when
+// the envelope's compressed flag (bit 0) is clear.
+//@ func (*dataTracer).traceMessageLocked
+//@   requires wfTracer(d) && d.isStreamProtocol && held[d.mu] && d.expecting > 0 && len(data) > 0
+//@   modifies dataTracer.env, dataTracer.expecting, dataTracer.actual, dataTracer.endStream, bufContent,
+//@            evN, evKind, evLen, evEnv, builder.*, RequestBodyData.*, ResponseBodyData.*, ResponseBodyEndStream.*, eventOffset.*, []Event, http.Request.*
+//@   ensures wfTracer(d) && held[d.mu]
+//@   ensures @need result_0 == old(d.expecting) - old(d.actual)
+//@   ensures @partial !result_1 ==> len(data) < result_0 && d.actual == old(d.actual) + len(data) && d.expecting == old(d.expecting) && d.env == old(d.env) && evN[d.builder] == old(evN[d.builder])
+//@   ensures @buffered !result_1 && old(d.endStream) != nil ==> d.endStream == old(d.endStream) && bufContent[d.endStream] == old(bufContent[d.endStream]) + bytes(data)
+//@   ensures @done result_1 ==> len(data) >= result_0 && d.expecting == 0 && evN[d.builder] >= old(evN[d.builder]) + 1 &&
+//@        evKind[d.builder][old(evN[d.builder])] == (d.isRequest ? 1 : 2) && evLen[d.builder][old(evN[d.builder])] == old(d.expecting) &&
+//@        evEnv[d.builder][old(evN[d.builder])] == old(d.env)
+//@   ensures @no-endstream result_1 && old(d.endStream) == nil ==> evN[d.builder] == old(evN[d.builder]) + 1
+//@   ensures @endstream-raw result_1 && old(d.endStream) != nil && (old(d.env.Flags) & 1) == 0 &&
+//@        old(bufContent[d.endStream]) + bytes(data[:result_0]) != "" ==>
+//@        evN[d.builder] == old(evN[d.builder]) + 2 && evKind[d.builder][old(evN[d.builder]) + 1] == 3
